@@ -5,6 +5,7 @@ import (
 	"encoding/json"
 	"fmt"
 	"math/rand/v2"
+	"runtime"
 	"sort"
 	"sync"
 	"sync/atomic"
@@ -32,6 +33,8 @@ type PoolCase struct {
 	LateTasks  int    `json:"late_tasks,omitempty"` // gated: tasks submitted by a second goroutine while the waiter is already inside Wait (its own tasks still parked); they are released first
 	DwellMs    int    `json:"dwell_ms,omitempty"` // gated: wait this long at the first two quiescent points with a blocked submitter
 	Lean       bool   `json:"lean,omitempty"` // tasks only do plain (non-atomic) writes; no harness synchronisation
+	PingPong   int    `json:"ping_pong,omitempty"`  // > 0: this many tiny tasks, each submitted the moment the previous one signals its completion (the submitter meets a worker that is just going idle), with a swept delay of a few spin steps
+	OpenPools  int    `json:"open_pools,omitempty"` // this many other 16-worker pools are created, used once and kept open while the case runs
 }
 
 // PoolObs is the observation of one pool run.
@@ -97,11 +100,41 @@ func runPoolCase(cs *PoolCase) *PoolObs {
 			o.Panic = fmt.Sprint(p)
 		}
 	}()
+	var others []*flyt.WorkerPool
+	for i := 0; i < cs.OpenPools; i++ {
+		op := flyt.NewWorkerPool(16)
+		var ran atomic.Int32
+		for j := 0; j < 3; j++ {
+			op.Submit(func() { ran.Add(1) })
+		}
+		op.Wait()
+		others = append(others, op)
+	}
+	defer func() {
+		for _, op := range others {
+			op.Close()
+		}
+	}()
+	beforePool := baseline
+	if len(others) > 0 {
+		if sn, ok := quiesce.Wait(self, quiesceBudget, &st); ok {
+			beforePool = map[int]bool{}
+			for id := range sn.States {
+				beforePool[id] = true
+			}
+		}
+	}
 	pool := flyt.NewWorkerPool(cs.Workers)
 	we := effWorkers(cs.Workers)
+	if cs.PingPong > 0 {
+		runPingPong(cs, pool, o, self, &st)
+		if o.Deadlock || o.Incon != "" {
+			return o
+		}
+	}
 	afterNew, _ := quiesce.Wait(self, quiesceBudget, &st)
 	for id := range afterNew.States {
-		if !baseline[id] {
+		if !beforePool[id] {
 			o.PoolGs++
 		}
 	}
@@ -321,11 +354,31 @@ func runPoolCase(cs *PoolCase) *PoolObs {
 				step++
 			}
 		} else {
-			select {
-			case <-done:
-			case <-time.After(120 * time.Second):
-				o.Incon = "free-running pool round did not finish within 120s"
-				return o
+			t0 := time.Now()
+		waitRound:
+			for {
+				select {
+				case <-done:
+					break waitRound
+				case <-time.After(250 * time.Millisecond):
+				}
+				// not finished yet: if every goroutine is blocked (twice in a row, nothing asleep in a timer), nothing
+				// can ever run again — the round is stuck for good, which is a verdict, not a timeout
+				if sn, ok := quiesce.Wait(self, 300*time.Millisecond, &st); ok && sn.Sleepers == 0 {
+					select {
+					case <-done:
+						break waitRound
+					default:
+					}
+					o.Deadlock = true
+					dump := make([]byte, 1<<16)
+					o.Dump = string(dump[:runtimeStack(dump)])
+					return o
+				}
+				if time.Since(t0) > 120*time.Second {
+					o.Incon = "free-running pool round did not finish within 120s"
+					return o
+				}
 			}
 		}
 		// the waiter's view after Wait: every effect must be visible (under -race a missing barrier is a report)
@@ -354,6 +407,10 @@ func runPoolCase(cs *PoolCase) *PoolObs {
 	o.HighWater = int(hw.Load())
 	o.Snapshots = st.Snapshots
 	pool.Close()
+	for _, op := range others {
+		op.Close()
+	}
+	others = nil
 	// goroutine census: everything that appeared since the baseline must be gone (worker exit is asynchronous: poll)
 	deadline := time.Now().Add(10 * time.Second)
 	for {
@@ -375,6 +432,52 @@ func runPoolCase(cs *PoolCase) *PoolObs {
 		time.Sleep(200 * time.Microsecond)
 	}
 	return o
+}
+
+// runPingPong: tiny tasks submitted one at a time, each the moment the previous one has signalled its completion —
+// the submitter keeps meeting a worker that is just about to go idle. Every task must run; the hand-over may not
+// depend on which side gets there first.
+func runPingPong(cs *PoolCase, pool *flyt.WorkerPool, o *PoolObs, self int, st *quiesce.Stats) {
+	var flag atomic.Int64
+	var ran atomic.Int64
+	sink := 0
+	for it := 1; it <= cs.PingPong; it++ {
+		want := int64(it)
+		for d := (it * 7) % 48; d > 0; d-- { // swept delay, a few spin steps
+			sink += d
+		}
+		pool.Submit(func() {
+			ran.Add(1)
+			for d := (it * 5) % 32; d > 0; d-- {
+				sink++
+			}
+			flag.Store(want)
+		})
+		for spins := 0; flag.Load() != want; spins++ {
+			if spins > 2000 {
+				runtime.Gosched()
+			}
+			if spins > 400000 && spins%100000 == 0 {
+				// the task has not run for a long while: stuck for good iff everything is blocked
+				if sn, ok := quiesce.Wait(self, 300*time.Millisecond, st); ok && sn.Sleepers == 0 && flag.Load() != want {
+					o.Deadlock = true
+					dump := make([]byte, 1<<16)
+					o.Dump = fmt.Sprintf("ping-pong iteration %d of %d: the submitted task never ran\n%s", it, cs.PingPong, dump[:runtimeStack(dump)])
+					return
+				}
+				if spins > 400000000 {
+					o.Incon = "ping-pong task did not complete and the process never became quiescent"
+					return
+				}
+			}
+		}
+	}
+	pool.Wait()
+	if got := ran.Load(); got != int64(cs.PingPong) {
+		o.NotOnce = append(o.NotOnce, fmt.Sprintf("ping-pong: %d tasks submitted one after the other, %d executions", cs.PingPong, got))
+	}
+	o.TasksRun += int(ran.Load())
+	_ = sink
 }
 
 func judgePool(cs *PoolCase, o *PoolObs) []scen.Finding {
@@ -494,6 +597,15 @@ func poolLoop(c *Cfg, n int, gen func(i int) *PoolCase, each func(i int, cs *Poo
 		o := runAndJudgePool(c, prop, cs)
 		if o.Incon != "" || o.Deadlock || len(o.Leaked) > 0 {
 			c.Rep.Note(fmt.Sprintf("stopped shard after stuck/inconclusive/leaking pool case %d: %s", i, o.Dump))
+			mine := false
+			for _, f := range judgePool(cs, o) {
+				if f.Prop == prop {
+					mine = true
+				}
+			}
+			if !mine && o.Incon == "" {
+				c.Rep.Incon(fmt.Sprintf("shard stopped after pool case %d got stuck or leaked (a finding of another property); the remaining cases were not run", i))
+			}
 			return
 		}
 		if each != nil {
@@ -614,6 +726,19 @@ func runC08(c *Cfg) {
 		cases = append(cases, &BatchCase{Family: "limit-with-retry-wait", N: n, C: cc, Budget: 2, Items: it, Shape: "results", Build: "builder", ExecStyle: "any", Gated: true, Policy: "holdfail", WaitMs: 1, DwellMs: 4})
 		cases = append(cases, &BatchCase{Family: "limit-with-retry-wait", N: n, C: cc, Budget: 3, Items: it, Shape: "results", Build: "options", ExecStyle: "result", SleepUs: 300, WaitMs: 1})
 	}
+	// every item fails its attempt and sits in its fallback: the fallback runs inside the item's slot, so c items can
+	// be in their fallbacks together (c fallbacks that wait for each other cannot deadlock the batch)
+	for _, cc := range []int{2, 3, 4} {
+		for _, build := range []string{"options", "compose"} {
+			n := cc + 1
+			it := make([]ItemScript, n)
+			for j := range it {
+				it[j].K = 2
+				it[j].FBE = j%2 == 1
+			}
+			cases = append(cases, &BatchCase{Family: "limit-inside-fallback", N: n, C: cc, Budget: 1, FB: true, GateFB: true, Items: it, Shape: map[string]string{"options": "results", "compose": "any"}[build], Build: build, ExecStyle: []string{"result", "any"}[cc%2], Gated: true, Policy: "hold-fallbacks", PSeed: uint64(cc)})
+		}
+	}
 	// dwell cases: the controller waits 150 ms at saturated quiescent points, so behaviour triggered by time
 	// (e.g. a submit that gives up blocking after a grace period) gets its chance to exceed the limit
 	for _, cc := range []int{1, 2, 3} {
@@ -654,6 +779,28 @@ func runC08(c *Cfg) {
 				continue
 			}
 			nc := &NestedCase{Family: "nested-batches", C: cc, Nested: true}
+			for vi, seq := range []string{"explicit", "default", "explicit-option"} {
+				if cc < 2 {
+					continue
+				}
+				sq := &NestedCase{Family: "nested-sequential-inner", C: cc, Nested: true, InnerSeq: seq, ViaFlow: (cc+vi)%2 == 0}
+				logCase(c, sq)
+				fs, seen, incon := runNestedCase(sq)
+				r.Eval()
+				if incon != "" {
+					r.Incon(incon)
+					return
+				}
+				r.Count("nested.sequential_inner_runs", 1)
+				_ = seen
+				for _, f := range fs {
+					r.Violate("C08", "C08:"+f.Key, f.Detail, sq)
+				}
+				r.Nontrivial(fmt.Sprintf("nested-seq %d %s", cc, seq))
+				if len(fs) > 0 {
+					return
+				}
+			}
 			logCase(c, nc)
 			fs, seen, incon := runNestedCase(nc)
 			r.Eval()
@@ -738,8 +885,19 @@ func runC12(c *Cfg) {
 			pcs = append(pcs, &PoolCase{Family: "two-waiters", Workers: w, Tasks: pre, LateTasks: 1 + (w+pre)%3, LateWaits: true, Submitters: 1, Rounds: 1, Gated: true, Policy: []string{"first", "late-first", "random"}[(w+pre)%3], PSeed: uint64(w*31 + pre)})
 		}
 	}
+	// submit-on-completion chains (the submitter meets a worker that is just going idle)
+	for _, w := range []int{1, 1, 2, 3} {
+		pcs = append(pcs, &PoolCase{Family: "ping-pong", Workers: w, Tasks: 2 * w, Submitters: 1, Rounds: 1, Gated: true, Policy: "first", PingPong: c.Pick(12000, 400000)})
+	}
+	// many other pools alive at the same time (17 x 16 workers): this pool behaves as if it were alone
+	for _, w := range []int{1, 4, 16} {
+		pcs = append(pcs, &PoolCase{Family: "many-open-pools", Workers: w, Tasks: 3*w + 1, Submitters: 2, Rounds: 2, Gated: true, Policy: "random", PSeed: uint64(w), OpenPools: 17})
+	}
 	poolLoop(c, len(pcs), func(i int) *PoolCase { return pcs[i] }, func(i int, cs *PoolCase, o *PoolObs) {
 		r.Count("gated.runs", 1)
+		if cs.PingPong > 0 {
+			r.Count("ping_pong.tasks", int64(cs.PingPong))
+		}
 		if cs.LateTasks > 0 {
 			r.Count("gated.runs.late_submitter", 1)
 		}
@@ -770,6 +928,10 @@ type NestedCase struct {
 	Family string `json:"family"`
 	C      int    `json:"c"`
 	Nested bool   `json:"nested"`
+	// InnerSeq: the inner batches have concurrency 0 ("explicit": set to 0; "default": never set): each of them runs
+	// strictly one item at a time, in item order, whatever the enclosing batch's concurrency is
+	InnerSeq string `json:"inner_seq,omitempty"`
+	ViaFlow  bool   `json:"via_flow,omitempty"` // the inner batch is started through a Flow instead of flyt.Run
 }
 
 func runNestedCase(cs *NestedCase) (fs []scen.Finding, parkedSeen int, incon string) {
@@ -778,7 +940,16 @@ func runNestedCase(cs *NestedCase) (fs []scen.Finding, parkedSeen int, incon str
 	parked := map[int]chan struct{}{}
 	c := cs.C
 	inner := func(o int) flyt.Node {
-		return flyt.NewBatchNode().WithBatchConcurrency(c).
+		bn := flyt.NewBatchNode()
+		switch cs.InnerSeq {
+		case "":
+			bn = bn.WithBatchConcurrency(c)
+		case "explicit":
+			bn = bn.WithBatchConcurrency(0)
+		case "explicit-option":
+			bn = flyt.NewBatchNode(flyt.WithBatchConcurrency(0))
+		}
+		return bn.
 			WithPrepFunc(func(ctx context.Context, s *flyt.SharedStore) ([]flyt.Result, error) {
 				r := make([]flyt.Result, c)
 				for i := range r {
@@ -804,7 +975,12 @@ func runNestedCase(cs *NestedCase) (fs []scen.Finding, parkedSeen int, incon str
 			return r, nil
 		}).
 		WithExecFuncAny(func(ctx context.Context, v any) (any, error) {
-			_, err := flyt.Run(ctx, inner(v.(int)), flyt.NewSharedStore())
+			var err error
+			if cs.ViaFlow {
+				err = flyt.NewFlow(inner(v.(int))).Run(ctx, flyt.NewSharedStore())
+			} else {
+				_, err = flyt.Run(ctx, inner(v.(int)), flyt.NewSharedStore())
+			}
 			return v, err
 		})
 	done := make(chan struct{})
@@ -814,6 +990,7 @@ func runNestedCase(cs *NestedCase) (fs []scen.Finding, parkedSeen int, incon str
 		_, _ = flyt.Run(context.Background(), outer, flyt.NewSharedStore())
 	}()
 	var st quiesce.Stats
+	innerNext := map[int]int{}
 	for round := 0; round < 10*c*c+10; round++ {
 		if _, ok := quiesce.Wait(self, quiesceBudget, &st); !ok {
 			return nil, parkedSeen, "quiescence not reached in nested batch case"
@@ -827,6 +1004,40 @@ func runNestedCase(cs *NestedCase) (fs []scen.Finding, parkedSeen int, incon str
 		n := len(parked)
 		if n > parkedSeen {
 			parkedSeen = n
+		}
+		if cs.InnerSeq != "" {
+			// per outer item at most one inner execution in flight, and it is the lowest item not yet executed
+			per := map[int][]int{}
+			for k := range parked {
+				per[k/100] = append(per[k/100], k%100)
+			}
+			for o, ks := range per {
+				if len(ks) > 1 {
+					fs = append(fs, scen.Finding{Prop: "C08", Key: "nested-sequential-over-limit", Detail: fmt.Sprintf("an inner batch with concurrency 0 (%s), run from item %d of an outer batch with concurrency %d: %d of its items are in flight at once (%v) — concurrency 0 means strictly one at a time, in item order", cs.InnerSeq, o, c, len(ks), ks)})
+				} else if ks[0] != innerNext[o] {
+					fs = append(fs, scen.Finding{Prop: "C08", Key: "nested-sequential-order", Detail: fmt.Sprintf("an inner sequential batch (outer item %d) is executing its item %d, but item %d is the next in item order", o, ks[0], innerNext[o])})
+				}
+			}
+			if len(fs) > 0 {
+				for k, ch := range parked {
+					close(ch)
+					delete(parked, k)
+				}
+				mu.Unlock()
+				return fs, parkedSeen, ""
+			}
+			if n == 0 {
+				mu.Unlock()
+				fs = append(fs, scen.Finding{Prop: "C08", Key: "nested-deadlock", Detail: fmt.Sprintf("nested batches (inner sequential) with c=%d: everything is blocked, nothing is parked, the outer run has not returned", c)})
+				return fs, parkedSeen, ""
+			}
+			for k, ch := range parked {
+				innerNext[k/100] = k%100 + 1
+				close(ch)
+				delete(parked, k)
+			}
+			mu.Unlock()
+			continue
 		}
 		if round == 0 && n != c*c {
 			fs = append(fs, scen.Finding{Prop: "C08", Key: "nested-under-use", Detail: fmt.Sprintf("outer batch (c=%d, %d items) whose items each run an inner batch (c=%d, %d items): %d inner executions are in flight at the first quiescent point, want %d — each batch must be able to use its own limit fully, also while another batch is running", c, c, c, c, n, c*c)})
